@@ -543,6 +543,16 @@ class ServerTls(Server):
                                         )
 
 
+    def wind(self, tymth):
+        """
+        Inject new tymist.tymth as new ._tymth. Changes tymist.tyme base.
+        Also winds remoters still handshaking in .cxes
+        """
+        super(ServerTls, self).wind(tymth)
+        for cx in self.cxes.values():  # remoter still handshaking
+            cx.wind(tymth)
+
+
     def serviceAxes(self):
         """
         Service accepteds
